@@ -151,15 +151,22 @@ let m_observable (res : string) (st : state) (vs : value list) : string =
 let values_of_state (s : state) : value list =
   List.map (fun o -> match o with Some v -> v | None -> failwith "model: abs failed (dangling handle or fuel)") (abs_vars s)
 
+(* `assign!` / `cont!`: the same operation, not subject to the self-containment exclusion *)
+let unguard (toks : string list) : string list * bool = match toks with
+  | name :: rest when String.length name > 1 && name.[String.length name - 1] = '!' ->
+    (String.sub name 0 (String.length name - 1) :: rest, true)
+  | _ -> (toks, false)
+
 let () =
   let mode = Sys.argv.(1) and file = Sys.argv.(2) in
   let nvars cfg = match cfg with k :: _ -> nat_of_int (int_of_string k) | [] -> nat_of_int 3 in
   if mode = "model" then
     run_cases file (fun cfg -> init (nvars cfg))
       (fun st _ toks ->
+         let (toks, ung) = unguard toks in
          let o = parse_op toks in
          let vs = values_of_state st in
-         if self_containing vs o then begin
+         if (not ung) && self_containing vs o then begin
            emit (m_observable "excluded" st vs ^ " | " ^ shape st); st
          end else
            match mstep st o with
@@ -174,8 +181,9 @@ let () =
   else
     run_cases file (fun cfg -> spec_init (nvars cfg))
       (fun vs _ toks ->
+         let (toks, ung) = unguard toks in
          let o = parse_op toks in
-         if self_containing vs o then begin emit (observable "excluded" vs); vs end
+         if (not ung) && self_containing vs o then begin emit (observable "excluded" vs); vs end
          else begin
            let (vs', out) = spec_step vs o in
            emit (observable (outcome_str out) vs'); vs'
